@@ -41,11 +41,21 @@ fn declined_requests(seed: &[u8]) -> bool {
         && AeKey::seed_from_signer(&Declining, &other).is_err()
 }
 
+/// refused derivations (seed too short / too long): all must fail; run before
+/// each derivation so that anything they might leave behind on the thread would show in the result
+fn refused_derivations() -> bool {
+    let short = [7u8; 5];
+    let long = vec![9u8; 65536];
+    ElGamalKeypair::from_seed(&short).is_err() && ElGamalSecretKey::from_seed(&short).is_err() && AeKey::from_seed(&short).is_err()
+        && ElGamalKeypair::from_seed(&long).is_err() && ElGamalSecretKey::from_seed(&long).is_err() && AeKey::from_seed(&long).is_err()
+}
+
 fn kp_bytes(k: &ElGamalKeypair) -> Vec<u8> { <[u8; 64]>::from(k).to_vec() }
 fn ae_bytes(k: AeKey) -> Vec<u8> { <[u8; 16]>::from(k).to_vec() }
 
 pub fn op_kdf(a: &[&str]) -> String {
     let bad = || "bad-op".to_string();
+    if !refused_derivations() { return "variant-mismatch:refused-derivation-accepted".into() }
     match a {
         [ty, "sig", h] => {
             let Some(sig) = unhex(h).and_then(|b| arr::<64>(&b)) else { return bad() };
